@@ -9,7 +9,9 @@ RULE = ('histories dominated by container calls (append/insert/place/equip/remov
         'single-slot and charge assignment; 18% failing calls), fits inside and outside solar systems; after every '
         'call the complete container contents and order, every item\'s own view of its owner and fit, are compared '
         'between the implementation and the model, whose rack functions are proved to be the documented list with '
-        'holes; non-trivial = at least one AttrsValueChanged or EffectApplied delivered')
+        'holes; message_histogram.OpOutsideContainerHyp counts the generated calls that fall outside the hypotheses '
+        '(fresh ids, existing fit) of the every-history consistency theorem, evaluated by the extracted op_okb; '
+        'non-trivial = at least one AttrsValueChanged or EffectApplied delivered')
 
 
 def gen(rng):
